@@ -331,7 +331,8 @@ def split_types(data):
     return out
 
 
-def in_state(state, cfgd=None, hold=None, now=0, allow_auto=True, counters=None, closing=False):
+def in_state(state, cfgd=None, hold=None, now=0, allow_auto=True, counters=None, closing=False, old_closing=False,
+             pending_attempt=False):
     """Place the real objects in `state` satisfying the shared invariant (DESIGN app. B):
        Idle(auto): idle-hold armed;  Idle(stopped): nothing armed
        Connect: one connector connecting, connect-retry armed
@@ -380,6 +381,26 @@ def in_state(state, cfgd=None, hold=None, now=0, allow_auto=True, counters=None,
                 f.hold_timer.reset(hold)
                 f.keep_alive_timer.reset(f.keep_alive_time)
         f.__dict__['state'] = state
+    if pending_attempt and state == IDLE:
+        # Idle although an attempt is still pending: the previous connection finished closing *after* a stop/start
+        # had already begun the next attempt (connection_closed() resets the state to Idle)
+        w.put_connecting()
+        w.peering.status = True
+    if old_closing:
+        # the previous connection: loseConnection() called by the agent, connectionLost not delivered yet
+        cur_p, cur_estab, cur_conn = f.protocol, w.peering.estab_protocol, getattr(w.peering, 'connector', None)
+        c_old = w.put_connected()
+        c_old.transport.disconnecting = 1
+        c_old.protocol.disconnected = True
+        c_old.protocol.msg_sent_stat['Opens'] = 1
+        w.reactor.lose_log.append((c_old.transport, now))
+        w.old_connector = c_old
+        # it was created before the current attempt / connection
+        w.reactor.connectors.remove(c_old)
+        w.reactor.connectors.insert(0, c_old)
+        if state not in (IDLE, CONNECT):
+            f.protocol, w.peering.estab_protocol = cur_p, cur_estab
+        w.peering.connector = cur_conn
     if counters:
         p = w.fsm.protocol
         for k, v in counters.get('sent', {}).items():
